@@ -419,7 +419,7 @@ theorem hasCycle_spec (g : Graph) :
 /-! ## `Previouses` against `Nexts`, heads, decoding -/
 
 
-/-! ## Goal A: `Previouses` is the converse of `Nexts` -/
+/-! ### `Previouses` is the converse of `Nexts` -/
 
 theorem w64_eq : W64 = 2 ^ 64 := by decide
 
@@ -534,7 +534,7 @@ theorem zero_not_head (g : Graph) : 0 ∉ g.heads := by
   have hh : has g.nodes 0 = true := (g.has_iff 0).mpr hx
   simp [Graph.previouses, hh, List.filter_cons] at e
 
-/-! ## Goal B: decoding a word of digits -/
+/-! ### decoding a word of digits -/
 
 theorem land3 (x : Nat) : x &&& 3 = x % 4 := Nat.and_two_pow_sub_one_eq_mod x 2
 
@@ -1853,6 +1853,678 @@ theorem hpInit_bound (g : Graph) : phi g (hpInit g).dist + (hpInit g).queue.leng
   unfold Graph.hpBound
   rw [h4] at h1 h3
   omega
+
+
+
+
+/-! ## the fixed point reached by the main loop; path reconstruction -/
+
+theorem HPInv.final_visited {g : Graph} {h : HP} (hi : HPInv g (fun _ _ => True) h) (hq : h.queue = [])
+    (x : Nat) (hx : has h.dist x = true) : getD0 h.visited x = 1 := by
+  apply Classical.byContradiction
+  intro hv
+  have := hi.pending x hx hv
+  rw [hq] at this; simp at this
+
+/-- at the fixed point every label is the weight of the node plus the label of its recorded predecessor -/
+theorem HPInv.final_eq {g : Graph} {h : HP} (hi : HPInv g (fun _ _ => True) h) (hq : h.queue = [])
+    (x : Nat) (hx : has h.dist x = true) (hxh : x ∉ g.heads) :
+    getD0 h.dist x = g.weight x + getD0 h.dist (getD0 h.prev x) := by
+  obtain ⟨a1, a2, a3⟩ := hi.prev x hx hxh
+  have := hi.relaxed _ x a2 (hi.final_visited hq _ a2) a1 trivial
+  omega
+
+theorem hpBack_spec (g : Graph) (hc : ¬ g.Cyclic) (h : HP) (hi : HPInv g (fun _ _ => True) h) (hq : h.queue = []) :
+    ∀ (fuel cur : Nat) (acc : List Nat), has h.dist cur = true → g.Walk (cur :: acc) →
+      fuel + acc.length = g.nodes.length + 2 →
+      ∃ p, hpBack g.heads h.prev fuel cur acc = .path p ∧ g.Walk p ∧ (∃ s t, p = s :: t ∧ s ∈ g.heads) ∧
+        g.pathWeight p = g.pathWeight acc + getD0 h.dist cur := by
+  intro fuel
+  induction fuel with
+  | zero =>
+    intro cur acc _ hw hf
+    have := hw.length_le hc
+    simp only [List.length_cons] at this
+    omega
+  | succ fuel ih =>
+    intro cur acc hcl hw hf
+    simp only [hpBack]
+    by_cases hs : cur ∈ g.heads
+    · have : g.heads.contains cur = true := by simpa using hs
+      rw [if_pos this]
+      refine ⟨_, rfl, hw, ⟨cur, acc, rfl, hs⟩, ?_⟩
+      rw [pathWeight_cons, (hi.heads cur hs).2]; omega
+    · have : g.heads.contains cur = false := by simpa using hs
+      rw [this]
+      have hnd := hw.nodup hc
+      rw [List.nodup_cons] at hnd
+      have : acc.contains cur = false := by simpa using hnd.1
+      rw [this]
+      simp only [Bool.false_eq_true, if_false]
+      obtain ⟨a1, a2, _⟩ := hi.prev cur hcl hs
+      have hw' : g.Walk (getD0 h.prev cur :: cur :: acc) := ⟨a1, hw⟩
+      obtain ⟨p, hp1, hp2, hp3, hp4⟩ := ih (getD0 h.prev cur) (cur :: acc) a2 hw'
+        (by simp only [List.length_cons]; omega)
+      refine ⟨p, hp1, hp2, hp3, ?_⟩
+      rw [hp4, pathWeight_cons, hi.final_eq hq cur hcl hs]; omega
+
+theorem hpBack_unlabelled (g : Graph) (h : HP) (hi : HPInv g (fun _ _ => True) h) (hl : has h.dist h.hNode = false) :
+    hpBack g.heads h.prev (g.nodes.length + 2) h.hNode [] = .panic := by
+  have h0 : h.hNode = 0 := by
+    rcases hi.hlab with h' | h'
+    · rw [h'] at hl; exact absurd hl (by simp)
+    · exact h'
+  rw [h0] at hl ⊢
+  have hp := hi.prev0 0 hl
+  have hs : 0 ∉ g.heads := zero_not_head g
+  simp [hpBack, hs, hp]
+
+theorem hpHyp_of (g : Graph) (hwf : g.WF) (hc : ¬ g.Cyclic) : HPHyp g :=
+  ⟨fun x hx => ((mem_heads_iff g hwf x).mp hx).2, hc⟩
+
+theorem not_cyclic_of_hasCycle {g : Graph} (h : g.hasCycle = some false) : ¬ g.Cyclic := by
+  rcases hasCycle_spec g with ⟨h1, _⟩ | ⟨_, h2⟩
+  · rw [h] at h1; simp at h1
+  · exact h2
+
+/-- the outcomes of `HaviestPath` on a graph without cycle -/
+theorem heaviestPath_cases (g : Graph) (hwf : g.WF) (hcyc : g.hasCycle = some false) (fuel : Nat) :
+    (hpLoop g fuel (hpInit g) = none ∧ g.heaviestPath fuel = .fuel) ∨
+    ∃ h, hpLoop g fuel (hpInit g) = some h ∧ HPInv g (fun _ _ => True) h ∧ h.queue = [] ∧
+      ((has h.dist h.hNode = true ∧ ∃ p, g.heaviestPath fuel = .path p ∧ g.Walk p ∧
+          (∃ s t, p = s :: t ∧ s ∈ g.heads) ∧ g.pathWeight p = h.hWeight) ∨
+       (has h.dist h.hNode = false ∧ g.heaviestPath fuel = .panic)) := by
+  have hc := not_cyclic_of_hasCycle hcyc
+  have hy := hpHyp_of g hwf hc
+  unfold Graph.heaviestPath
+  rw [hcyc]
+  simp only []
+  cases hl : hpLoop g fuel (hpInit g) with
+  | none => exact Or.inl ⟨rfl, rfl⟩
+  | some h =>
+    right
+    obtain ⟨hi, hq⟩ := (hpLoop_spec g hy fuel (hpInit g) (hpInit_inv g)).1 h hl
+    refine ⟨h, rfl, hi, hq, ?_⟩
+    simp only []
+    cases hlab : has h.dist h.hNode with
+    | true =>
+      left
+      have hk : h.hNode ∈ g.keys := hi.keys _ hlab
+      obtain ⟨p, hp1, hp2, hp3, hp4⟩ := hpBack_spec g hc h hi hq (g.nodes.length + 2) h.hNode [] hlab hk (by simp)
+      refine ⟨rfl, p, hp1, hp2, hp3, ?_⟩
+      rw [hp4, hi.hnode]; simp [Graph.pathWeight]
+    | false =>
+      right
+      exact ⟨rfl, hpBack_unlabelled g h hi hlab⟩
+
+/-- at the fixed point no walk from a head is heavier than the largest label (positive weights) -/
+theorem HPInv.walk_le {g : Graph} {h : HP} (hi : HPInv g (fun _ _ => True) h) (hq : h.queue = [])
+    (hpos : ∀ x ∈ g.keys, 0 < g.weight x) : ∀ (q : List Nat) (x c : Nat), has h.dist x = true →
+      c + g.weight x ≤ getD0 h.dist x → g.Walk (x :: q) → c + g.pathWeight (x :: q) ≤ h.hWeight := by
+  intro q
+  induction q with
+  | nil =>
+    intro x c hx hcx _
+    have := hi.maxw x hx (hi.final_visited hq x hx)
+    rw [pathWeight_cons]; simp only [Graph.pathWeight, List.map_nil, List.sum_nil]; omega
+  | cons y q ih =>
+    intro x c hx hcx hw
+    have hr := hi.relaxed x y hx (hi.final_visited hq x hx) hw.1 trivial
+    have hp := hpos y hw.1.right
+    have hy : has h.dist y = true := by
+      cases hh : has h.dist y with
+      | true => rfl
+      | false => have := getD0_of_not_has _ _ hh; omega
+    have := ih y (c + g.weight x) hy (by omega) hw.2
+    rw [pathWeight_cons]; omega
+
+/-- a non-empty graph without cycle has a node without predecessor -/
+theorem exists_head (g : Graph) (hwf : g.WF) (hc : ¬ g.Cyclic) (hne : g.nodes ≠ []) : ∃ x, x ∈ g.heads := by
+  apply Classical.byContradiction
+  intro hno
+  have hpred : ∀ x ∈ g.keys, ∃ y, g.Edge y x := by
+    intro x hx
+    apply Classical.byContradiction
+    intro hn
+    exact hno ⟨x, (mem_heads_iff g hwf x).mpr ⟨hx, fun y e => hn ⟨y, e⟩⟩⟩
+  have hlong : ∀ n : Nat, ∃ p, g.Walk p ∧ p.length = n + 1 := by
+    intro n
+    induction n with
+    | zero =>
+      cases hn : g.nodes with
+      | nil => exact absurd hn hne
+      | cons e t =>
+        refine ⟨[e.1], ?_, rfl⟩
+        show e.1 ∈ g.keys
+        simp [Graph.keys, hn]
+    | succ n ih =>
+      obtain ⟨p, hp, hl⟩ := ih
+      cases p with
+      | nil => simp at hl
+      | cons a p =>
+        obtain ⟨y, e⟩ := hpred a (hp.mem _ a (by simp))
+        exact ⟨y :: a :: p, ⟨e, hp⟩, by simp only [List.length_cons] at hl ⊢; omega⟩
+  obtain ⟨p, hp, hl⟩ := hlong g.nodes.length
+  have := hp.length_le hc
+  omega
+
+
+
+
+/-! ## `HaviestPath`: the returned path is a walk from a source, termination, optimality -/
+
+theorem hasCycle_false_of_path {g : Graph} {fuel : Nat} {p : List Nat} (h : g.heaviestPath fuel = .path p) :
+    g.hasCycle = some false := by
+  unfold Graph.heaviestPath at h
+  cases hc : g.hasCycle with
+  | none => rw [hc] at h; simp at h
+  | some b =>
+    cases b with
+    | true => rw [hc] at h; simp at h
+    | false => rfl
+
+theorem heaviestPath_is_walk (g : Graph) (hwf : g.WF) (fuel : Nat) (p : List Nat)
+    (h : g.heaviestPath fuel = .path p) :
+    g.Walk p ∧ ∃ s t, p = s :: t ∧ s ∈ g.heads ∧ g.IsSource s := by
+  rcases heaviestPath_cases g hwf (hasCycle_false_of_path h) fuel with ⟨_, h1⟩ | ⟨hh, _, _, _, h1 | h1⟩
+  · rw [h1] at h; simp at h
+  · obtain ⟨_, p', hp, hw, ⟨s, t, e, hs⟩, _⟩ := h1
+    rw [hp] at h
+    simp only [HPOut.path.injEq] at h; subst h
+    exact ⟨hw, s, t, e, hs, (mem_heads_iff g hwf s).mp hs⟩
+  · rw [h1.2] at h; simp at h
+
+theorem hasCycle_false_iff (g : Graph) : g.hasCycle = some false ↔ ¬ g.Cyclic := by
+  rcases hasCycle_spec g with ⟨h1, h2⟩ | ⟨h1, h2⟩
+  · rw [h1]; simp [h2]
+  · rw [h1]; simp [h2]
+
+theorem heaviestPath_terminates (g : Graph) (hwf : g.WF) (hc : ¬ g.Cyclic) (fuel : Nat) (hf : g.hpBound ≤ fuel) :
+    g.heaviestPath fuel ≠ .fuel ∧ g.heaviestPath fuel ≠ .nil ∧
+    (g.nodes ≠ [] → (∀ x ∈ g.keys, 0 < g.weight x) → ∃ p, g.heaviestPath fuel = .path p) := by
+  have hcyc : g.hasCycle = some false := (hasCycle_false_iff g).mpr hc
+  have hy := hpHyp_of g hwf hc
+  obtain ⟨h0, hl0⟩ := (hpLoop_spec g hy fuel (hpInit g) (hpInit_inv g)).2
+    (Nat.le_trans (hpInit_bound g) hf)
+  rcases heaviestPath_cases g hwf hcyc fuel with ⟨h1, _⟩ | ⟨h, hl, hi, hq, h1⟩
+  · rw [hl0] at h1; simp at h1
+  · rcases h1 with ⟨hlab, p, hp, _⟩ | ⟨hlab, hp⟩
+    · rw [hp]; exact ⟨by simp, by simp, fun _ _ => ⟨p, rfl⟩⟩
+    · rw [hp]
+      refine ⟨by simp, by simp, ?_⟩
+      intro hne hpos
+      obtain ⟨s, hs⟩ := exists_head g hwf hc hne
+      obtain ⟨a1, a2⟩ := hi.heads s hs
+      have a3 := hi.maxw s a1 (hi.final_visited hq s a1)
+      have a4 := hpos s (heads_sub_keys g s hs)
+      have a5 := hi.hnode
+      rw [getD0_of_not_has _ _ hlab] at a5
+      omega
+
+theorem heaviestPath_optimal (g : Graph) (hwf : g.WF) (hpos : ∀ x ∈ g.keys, 0 < g.weight x) (fuel : Nat)
+    (p : List Nat) (h : g.heaviestPath fuel = .path p) :
+    ∀ s t, g.IsSource s → g.Walk (s :: t) → g.pathWeight (s :: t) ≤ g.pathWeight p := by
+  intro s t hs hw
+  rcases heaviestPath_cases g hwf (hasCycle_false_of_path h) fuel with ⟨_, h1⟩ | ⟨hh, _, hi, hq, h1 | h1⟩
+  · rw [h1] at h; simp at h
+  · obtain ⟨_, p', hp, _, _, hpw⟩ := h1
+    rw [hp] at h
+    simp only [HPOut.path.injEq] at h; subst h
+    have hsh := (mem_heads_iff g hwf s).mpr hs
+    obtain ⟨a1, a2⟩ := hi.heads s hsh
+    have := hi.walk_le hq hpos t s 0 a1 (by omega) hw
+    omega
+  · rw [h1.2] at h; simp at h
+
+
+/-! ## windows of digits by position -/
+
+
+/-- the word of the window of `k` digits at position `i` -/
+def kw (k : Nat) (d : List Nat) (i : Nat) : Nat := val ((d.drop i).take k)
+/-- the words of all the windows of `k` digits, in order -/
+def kwords (k : Nat) (d : List Nat) : List Nat := (windowsAll k d).map val
+/-- the 2-bit code of a plain base (0 for any other byte) -/
+def digit (b : UInt8) : Nat := (plain b).getD 0
+
+theorem windowsAll_eq_range {α : Type} (k : Nat) (hk : 1 ≤ k) (l : List α) :
+    windowsAll k l = (List.range (l.length + 1 - k)).map fun i => (l.drop i).take k := by
+  induction l with
+  | nil =>
+    have : ([] : List α).length + 1 - k = 0 := by simp; omega
+    rw [this]; rfl
+  | cons a t ih =>
+    simp only [windowsAll]
+    by_cases h : k ≤ (a :: t).length
+    · rw [if_pos h, ih]
+      have e : (a :: t).length + 1 - k = (t.length + 1 - k) + 1 := by simp at h ⊢; omega
+      rw [e, List.range_succ_eq_map, List.map_cons, List.map_map]
+      rfl
+    · rw [if_neg h]
+      have e : (a :: t).length + 1 - k = 0 := by omega
+      rw [e]; rfl
+
+theorem kwords_eq_range (k : Nat) (hk : 1 ≤ k) (d : List Nat) :
+    kwords k d = (List.range (d.length + 1 - k)).map (kw k d) := by
+  unfold kwords
+  rw [windowsAll_eq_range k hk, List.map_map]
+  rfl
+
+theorem val_inj : ∀ (a b : List Nat), Dig a → Dig b → a.length = b.length → val a = val b → a = b := by
+  intro a
+  induction a with
+  | nil =>
+    intro b _ _ hl _
+    cases b with
+    | nil => rfl
+    | cons y b => simp at hl
+  | cons x a ih =>
+    intro b ha hb hl hv
+    cases b with
+    | nil => simp at hl
+    | cons y b =>
+      have hl' : a.length = b.length := by simpa using hl
+      have hda : Dig a := fun c hc => ha c (by simp [hc])
+      have hdb : Dig b := fun c hc => hb c (by simp [hc])
+      have h1 := val_lt a hda
+      have h2 := val_lt b hdb
+      rw [val_cons, val_cons, ← hl'] at hv
+      rw [← hl'] at h2
+      have hP : 0 < 4 ^ a.length := Nat.pow_pos (by decide)
+      have e1 : (x * 4 ^ a.length + val a) / 4 ^ a.length = x := by
+        rw [Nat.add_comm, Nat.add_mul_div_right _ _ hP, Nat.div_eq_of_lt h1, Nat.zero_add]
+      have e2 : (y * 4 ^ a.length + val b) / 4 ^ a.length = y := by
+        rw [Nat.add_comm, Nat.add_mul_div_right _ _ hP, Nat.div_eq_of_lt h2, Nat.zero_add]
+      have hxy : x = y := by rw [← e1, hv, e2]
+      subst hxy
+      have hvv : val a = val b := by omega
+      rw [ih b hda hdb hl' hvv]
+
+theorem dig_take {d : List Nat} (hd : Dig d) (n : Nat) : Dig (d.take n) :=
+  fun c hc => hd c (List.mem_of_mem_take hc)
+
+theorem dig_drop {d : List Nat} (hd : Dig d) (n : Nat) : Dig (d.drop n) :=
+  fun c hc => hd c (List.mem_of_mem_drop hc)
+
+theorem kw_lt (k : Nat) (d : List Nat) (hd : Dig d) (i : Nat) : kw k d i < 4 ^ k := by
+  have h := val_lt _ (dig_take (dig_drop hd i) k)
+  have hl : ((d.drop i).take k).length ≤ k := by simp; omega
+  have : 4 ^ ((d.drop i).take k).length ≤ 4 ^ k := Nat.pow_le_pow_right (by decide) hl
+  unfold kw; omega
+
+/-- a full window is its first `k - 1` digits followed by the digit at position `i + (k - 1)` -/
+theorem window_snoc (k : Nat) (hk : 1 ≤ k) (d : List Nat) (i : Nat) (hi : i + k ≤ d.length) :
+    (d.drop i).take k = (d.drop i).take (k - 1) ++ [d[i + (k - 1)]'(by omega)] := by
+  obtain ⟨k', rfl⟩ : ∃ k', k = k' + 1 := ⟨k - 1, by omega⟩
+  have hlt : k' < (d.drop i).length := by simp; omega
+  rw [List.take_succ_eq_append_getElem hlt]
+  simp
+
+/-- a full window is the digit at position `i` followed by the first `k - 1` digits from `i + 1` -/
+theorem window_cons (k : Nat) (hk : 1 ≤ k) (d : List Nat) (i : Nat) (hi : i + k ≤ d.length) :
+    (d.drop i).take k = d[i]'(by omega) :: (d.drop (i + 1)).take (k - 1) := by
+  obtain ⟨k', rfl⟩ : ∃ k', k = k' + 1 := ⟨k - 1, by omega⟩
+  rw [List.drop_eq_getElem_cons (by omega : i < d.length), List.take_succ_cons]
+  rfl
+
+theorem kw_div (k : Nat) (hk : 1 ≤ k) (d : List Nat) (hd : Dig d) (i : Nat) (hi : i + k ≤ d.length) :
+    kw k d i / 4 = kw (k - 1) d i := by
+  unfold kw
+  rw [window_snoc k hk d i hi, val_snoc_div _ _ (hd _ (List.getElem_mem _))]
+
+theorem kw_land3 (k : Nat) (hk : 1 ≤ k) (d : List Nat) (hd : Dig d) (i : Nat) (hi : i + k ≤ d.length) :
+    kw k d i &&& 3 = d[i + (k - 1)]'(by omega) := by
+  unfold kw
+  rw [window_snoc k hk d i hi, val_land3 _ _ (hd _ (List.getElem_mem _))]
+
+theorem kw_mod (k : Nat) (hk : 1 ≤ k) (d : List Nat) (hd : Dig d) (i : Nat) (hi : i + k ≤ d.length) :
+    kw k d i % 4 ^ (k - 1) = kw (k - 1) d (i + 1) := by
+  unfold kw
+  rw [window_cons k hk d i hi, val_cons]
+  have hl : ((d.drop (i + 1)).take (k - 1)).length = k - 1 := by simp; omega
+  have h := val_lt _ (dig_take (dig_drop hd (i + 1)) (k - 1))
+  rw [hl] at h ⊢
+  rw [Nat.add_comm, Nat.add_mul_mod_self_right, Nat.mod_eq_of_lt h]
+
+/-- the (k-1)-overlap on words, by positions: when no window of k-1 digits occurs twice, the last k-1 digits
+of window i are the first k-1 digits of window j exactly when j = i + 1 -/
+theorem kw_overlap_iff (k : Nat) (hk : 2 ≤ k) (d : List Nat) (hd : Dig d) (hn : (windowsAll (k - 1) d).Nodup)
+    (i j : Nat) (hi : i + k ≤ d.length) (hj : j + k ≤ d.length) :
+    kw k d j / 4 = kw k d i % 4 ^ (k - 1) ↔ j = i + 1 := by
+  rw [kw_div k (by omega) d hd j hj, kw_mod k (by omega) d hd i hi]
+  constructor
+  · intro h
+    have hlj : ((d.drop j).take (k - 1)).length = k - 1 := by simp; omega
+    have hli : ((d.drop (i + 1)).take (k - 1)).length = k - 1 := by simp; omega
+    have hw : (d.drop j).take (k - 1) = (d.drop (i + 1)).take (k - 1) :=
+      val_inj _ _ (dig_take (dig_drop hd j) _) (dig_take (dig_drop hd (i + 1)) _) (by rw [hlj, hli]) h
+    rw [windowsAll_eq_range (k - 1) (by omega)] at hn
+    have hp := List.pairwise_iff_getElem.mp hn
+    have hlen : ((List.range (d.length + 1 - (k - 1))).map fun i => (d.drop i).take (k - 1)).length
+        = d.length + 1 - (k - 1) := by simp
+    have hj' : j < d.length + 1 - (k - 1) := by omega
+    have hi' : i + 1 < d.length + 1 - (k - 1) := by omega
+    rcases Nat.lt_trichotomy j (i + 1) with hlt | heq | hgt
+    · have := hp j (i + 1) (by rw [hlen]; exact hj') (by rw [hlen]; exact hi') hlt
+      simp only [List.getElem_map, List.getElem_range] at this
+      exact absurd hw this
+    · exact heq
+    · have := hp (i + 1) j (by rw [hlen]; exact hi') (by rw [hlen]; exact hj') hgt
+      simp only [List.getElem_map, List.getElem_range] at this
+      exact absurd hw.symm this
+  · intro h; subst h; rfl
+
+theorem decodePath_kwords (g : Graph) (d : List Nat) (hd : Dig d) (hk : 1 ≤ g.k) (hl : g.k ≤ d.length) :
+    g.decodePath (kwords g.k d) = d.map decode := by
+  rw [kwords_eq_range g.k hk]
+  have e : d.length + 1 - g.k = (d.length - g.k) + 1 := by omega
+  rw [e, List.range_succ_eq_map, List.map_cons, List.map_map]
+  simp only [Graph.decodePath, List.map_map]
+  have h0 : kw g.k d 0 = val (d.take g.k) := by simp [kw]
+  have hlen : (d.take g.k).length = g.k := by simp; omega
+  have h1 : decodeNode g.k (kw g.k d 0) [] = (d.take g.k).map decode := by
+    rw [h0]
+    have := decodeNode_val (d.take g.k) (dig_take hd _)
+    rw [hlen] at this
+    exact this
+  rw [h1]
+  have h2 : (List.range (d.length - g.k)).map
+      ((fun y => decode (y &&& 3)) ∘ (kw g.k d ∘ Nat.succ)) = (d.drop g.k).map decode := by
+    apply List.ext_getElem
+    · simp
+    · intro n hn1 hn2
+      have hn : n < d.length - g.k := by simpa using hn1
+      simp only [List.getElem_map, List.getElem_range, Function.comp, Nat.succ_eq_add_one,
+        List.getElem_drop]
+      rw [kw_land3 g.k hk d hd (n + 1) (by omega)]
+      congr 2
+      omega
+  rw [h2, ← List.map_append, List.take_append_drop]
+
+theorem winSpec_digits (k : Nat) (d : List Nat) : winSpec val k (d.map some) = kwords k d := by
+  unfold winSpec kwords
+  rw [windowsAll_map, List.filterMap_map]
+  conv => rhs; rw [← List.filterMap_eq_map]
+  apply filterMap_congr'
+  intro w _
+  simp [Function.comp, allSome_map_some]
+
+theorem plain_digit (b : UInt8) (h : (plain b).isSome) : plain b = some (digit b) := by
+  unfold digit
+  cases hp : plain b with
+  | none => rw [hp] at h; simp at h
+  | some c => rfl
+
+theorem map_plain_digit (s : Bytes) (hp : ∀ b ∈ s, (plain b).isSome) : s.map plain = (s.map digit).map some := by
+  rw [List.map_map]
+  apply List.map_congr_left
+  intro b hb
+  exact plain_digit b (hp b hb)
+
+theorem digit_lt (b : UInt8) : digit b < 4 := by
+  unfold digit
+  cases hp : plain b with
+  | none => simp
+  | some c => simpa using plain_lt b c hp
+
+theorem dig_digits (s : Bytes) : Dig (s.map digit) := by
+  intro c hc
+  obtain ⟨b, _, rfl⟩ := List.mem_map.mp hc
+  exact digit_lt b
+
+theorem decode_digit_byte (b : UInt8) (h : b = 97 ∨ b = 99 ∨ b = 103 ∨ b = 116) : decode (digit b) = b := by
+  rcases h with rfl | rfl | rfl | rfl <;> decide
+
+/-- a read over a, c, g, t (bytes 97, 99, 103, 116) -/
+theorem decode_digit_acgt (s : Bytes) (h : ∀ b ∈ s, b = 97 ∨ b = 99 ∨ b = 103 ∨ b = 116) :
+    (s.map digit).map decode = s := by
+  rw [List.map_map]
+  conv => rhs; rw [← List.map_id s]
+  apply List.map_congr_left
+  intro b hb
+  exact decode_digit_byte b (h b hb)
+
+theorem plain_acgt (s : Bytes) (h : ∀ b ∈ s, b = 97 ∨ b = 99 ∨ b = 103 ∨ b = 116) :
+    ∀ b ∈ s, (plain b).isSome := by
+  intro b hb
+  rcases h b hb with rfl | rfl | rfl | rfl <;> decide
+
+theorem digit_inj_acgt (a b : UInt8) (ha : a = 97 ∨ a = 99 ∨ a = 103 ∨ a = 116)
+    (hb : b = 97 ∨ b = 99 ∨ b = 103 ∨ b = 116) (h : digit a = digit b) : a = b := by
+  rw [← decode_digit_byte a ha, ← decode_digit_byte b hb, h]
+
+theorem map_digit_inj_acgt : ∀ (a b : Bytes), (∀ x ∈ a, x = 97 ∨ x = 99 ∨ x = 103 ∨ x = 116) →
+    (∀ x ∈ b, x = 97 ∨ x = 99 ∨ x = 103 ∨ x = 116) → a.map digit = b.map digit → a = b := by
+  intro a b ha hb h
+  have h2 := congrArg (List.map decode) h
+  rw [decode_digit_acgt a ha, decode_digit_acgt b hb] at h2
+  exact h2
+
+theorem windows_digit_nodup (k : Nat) (s : Bytes) (h : ∀ b ∈ s, b = 97 ∨ b = 99 ∨ b = 103 ∨ b = 116)
+    (hn : (windowsAll k s).Nodup) : (windowsAll k (s.map digit)).Nodup := by
+  rw [windowsAll_map]
+  unfold List.Nodup at hn ⊢
+  rw [List.pairwise_map]
+  apply List.Pairwise.imp_of_mem _ hn
+  intro a b ha hb hab hm
+  apply hab
+  exact map_digit_inj_acgt a b (fun x hx => h x (mem_windowsAll k s a ha x hx))
+    (fun x hx => h x (mem_windowsAll k s b hb x hx)) hm
+
+
+
+
+
+/-! ## a single read without repeated (k-1)-mer -/
+
+/-- the graph of a single read `s` of plain bases (digits `d`), count `w ≥ 1`, `2 ≤ k ≤ 32`, no window of
+`k-1` digits occurring twice -/
+structure OneRead (g : Graph) (k : Nat) (d : List Nat) : Prop where
+  k2 : 2 ≤ k
+  wf : g.WF
+  gk : g.k = k
+  dig : Dig d
+  len : k ≤ d.length
+  nodup : (windowsAll (k - 1) d).Nodup
+  pos : ∀ x ∈ g.keys, 0 < g.weight x
+  keys : ∀ x, x ∈ g.keys ↔ x ∈ kwords k d
+
+theorem oneRead_push (k : Nat) (hk : 2 ≤ k) (h32 : k ≤ 32) (s : Bytes) (w : Nat) (hw : 1 ≤ w)
+    (hp : ∀ b ∈ s, (plain b).isSome) (hl : k ≤ s.length) (hn : (windowsAll (k - 1) (s.map digit)).Nodup) :
+    OneRead ((makeGraph k).push s w) k (s.map digit) := by
+  have hwf0 := makeGraph_wf k (by omega) h32
+  have hwf := push_wf _ hwf0 s w
+  have hk' := push_k (makeGraph k) s w
+  have hpos : ∀ x ∈ ((makeGraph k).push s w).keys, 0 < ((makeGraph k).push s w).weight x :=
+    push_pos (makeGraph k) s w hw (by intro x hx; simp [Graph.keys, makeGraph] at hx)
+  have hwt : ∀ x, ((makeGraph k).push s w).weight x = w * (kwords k (s.map digit)).count x := by
+    intro x
+    have := push_plain (makeGraph k) (by show 1 ≤ k; omega) (by show 2 * k ≤ 64; omega)
+      (makeGraph_mask k (by omega)) s w x hp
+    have hkk : (makeGraph k).k = k := rfl
+    rw [hkk] at this
+    rw [this, map_plain_digit s hp, winSpec_digits]
+    show weightOf [] x + _ = _
+    simp [weightOf]
+  refine ⟨hk, hwf, hk'.1, dig_digits s, by simpa using hl, hn, hpos, ?_⟩
+  intro x
+  constructor
+  · intro hx
+    have := hpos x hx
+    rw [hwt] at this
+    apply List.count_pos_iff.mp
+    apply Nat.pos_of_ne_zero
+    intro h0; rw [h0] at this; omega
+  · intro hx
+    have hc := List.count_pos_iff.mpr hx
+    have hwx : 0 < ((makeGraph k).push s w).weight x := by
+      rw [hwt]; exact Nat.mul_pos (by omega) hc
+    apply (Graph.has_iff _ x).mp
+    unfold Graph.weight weightOf at hwx
+    unfold has
+    cases hh : List.lookup x ((makeGraph k).push s w).nodes with
+    | none => rw [hh] at hwx; simp at hwx
+    | some v => rfl
+
+namespace OneRead
+variable {g : Graph} {k : Nat} {d : List Nat}
+
+theorem mem_keys (h : OneRead g k d) (x : Nat) : x ∈ g.keys ↔ ∃ i, i < (d.length + 1 - k) ∧ x = kw k d i := by
+  rw [h.keys, kwords_eq_range k (by have := h.k2; omega), List.mem_map]
+  constructor
+  · rintro ⟨i, hi, rfl⟩; exact ⟨i, List.mem_range.mp hi, rfl⟩
+  · rintro ⟨i, hi, rfl⟩; exact ⟨i, List.mem_range.mpr hi, rfl⟩
+
+theorem edge_iff' (h : OneRead g k d) (i j : Nat) (hi : i < (d.length + 1 - k)) (hj : j < (d.length + 1 - k)) :
+    g.Edge (kw k d i) (kw k d j) ↔ j = i + 1 := by
+  have hk := h.k2
+  have hl := h.len
+  rw [edge_iff g h.wf, h.gk, kw_overlap_iff k h.k2 d h.dig h.nodup i j (by omega) (by omega)]
+  constructor
+  · exact fun a => a.2.2
+  · exact fun a => ⟨(h.mem_keys _).mpr ⟨i, hi, rfl⟩, (h.mem_keys _).mpr ⟨j, hj, rfl⟩, a⟩
+
+theorem walk_range (h : OneRead g k d) : ∀ (m a : Nat), a + (m + 1) ≤ (d.length + 1 - k) →
+    g.Walk ((List.range' a (m + 1)).map (kw k d)) := by
+  intro m
+  induction m with
+  | zero =>
+    intro a ha
+    show kw k d a ∈ g.keys
+    exact (h.mem_keys _).mpr ⟨a, by omega, rfl⟩
+  | succ m ih =>
+    intro a ha
+    have := ih (a + 1) (by omega)
+    rw [List.range'_succ] at this
+    rw [List.range'_succ, List.range'_succ]
+    simp only [List.map_cons] at this ⊢
+    exact ⟨(h.edge_iff' a (a + 1) (by omega) (by omega)).mpr rfl, this⟩
+
+theorem source0 (h : OneRead g k d) : g.IsSource (kw k d 0) := by
+  have hk := h.k2
+  have hl := h.len
+  refine ⟨(h.mem_keys _).mpr ⟨0, by omega, rfl⟩, ?_⟩
+  intro y e
+  obtain ⟨i, hi, rfl⟩ := (h.mem_keys y).mp e.left
+  have := (h.edge_iff' i 0 hi (by omega)).mp e
+  omega
+
+theorem source_eq (h : OneRead g k d) (s : Nat) (hs : g.IsSource s) : s = kw k d 0 := by
+  obtain ⟨i, hi, rfl⟩ := (h.mem_keys s).mp hs.1
+  cases i with
+  | zero => rfl
+  | succ i => exact absurd ((h.edge_iff' i (i + 1) (by omega) hi).mpr rfl) (hs.2 _)
+
+theorem walk_prefix (h : OneRead g k d) : ∀ (q : List Nat) (a : Nat), a < (d.length + 1 - k) → g.Walk (kw k d a :: q) →
+    ∃ m, a + 1 + m ≤ (d.length + 1 - k) ∧ q = (List.range' (a + 1) m).map (kw k d) := by
+  intro q
+  induction q with
+  | nil => intro a ha _; exact ⟨0, by omega, rfl⟩
+  | cons y q ih =>
+    intro a ha hw
+    obtain ⟨j, hj, rfl⟩ := (h.mem_keys y).mp hw.1.right
+    have := (h.edge_iff' a j ha hj).mp hw.1
+    subst this
+    obtain ⟨m, hm, hq⟩ := ih (a + 1) hj hw.2
+    exact ⟨m + 1, by omega, by rw [List.range'_succ, List.map_cons, hq]⟩
+
+theorem pathWeight_append (g : Graph) (a b : List Nat) : g.pathWeight (a ++ b) = g.pathWeight a + g.pathWeight b := by
+  simp [Graph.pathWeight, List.sum_append]
+
+theorem acyclic (h : OneRead g k d) : ¬ g.Cyclic := by
+  -- every edge increases the position
+  have key : ∀ (p : List Nat) (a : Nat), a < (d.length + 1 - k) → ∀ z, g.Walk (kw k d a :: (p ++ [z])) →
+      ∃ b, a < b ∧ b < (d.length + 1 - k) ∧ z = kw k d b := by
+    intro p
+    induction p with
+    | nil =>
+      intro a ha z hw
+      obtain ⟨j, hj, rfl⟩ := (h.mem_keys z).mp hw.1.right
+      exact ⟨j, by have := (h.edge_iff' a j ha hj).mp hw.1; omega, hj, rfl⟩
+    | cons y p ih =>
+      intro a ha z hw
+      obtain ⟨j, hj, rfl⟩ := (h.mem_keys y).mp hw.1.right
+      have := (h.edge_iff' a j ha hj).mp hw.1
+      obtain ⟨b, hb, hbN, hz⟩ := ih j hj z hw.2
+      exact ⟨b, by omega, hbN, hz⟩
+  rintro ⟨x, p, hw⟩
+  have hx : x ∈ g.keys := Graph.Walk.mem _ hw x (by simp)
+  obtain ⟨a, ha, rfl⟩ := (h.mem_keys x).mp hx
+  obtain ⟨b, hb, hbN, hz⟩ := key p a ha _ hw
+  have e1 := (h.edge_iff' (b - 1) b (by omega) hbN).mpr (by omega)
+  rw [← hz] at e1
+  have := (h.edge_iff' (b - 1) a (by omega) ha).mp e1
+  omega
+
+/-- the heaviest path of the graph of a single read is the list of its k-mers -/
+theorem heaviest (h : OneRead g k d) (fuel : Nat) (hf : g.hpBound ≤ fuel) :
+    g.heaviestPath fuel = .path (kwords k d) := by
+  have hk := h.k2
+  have hl := h.len
+  obtain ⟨N, hN⟩ : ∃ N, (d.length + 1 - k) = N + 1 := ⟨(d.length + 1 - k) - 1, by omega⟩
+  have hkw : kwords k d = (List.range' 0 (N + 1)).map (kw k d) := by
+    rw [kwords_eq_range k (by omega), List.range_eq_range']
+    rw [hN]
+  have hwalk : g.Walk (kwords k d) := by rw [hkw]; exact h.walk_range N 0 (by omega)
+  have hne : g.nodes ≠ [] := by
+    intro e
+    have := (h.mem_keys (kw k d 0)).mpr ⟨0, by omega, rfl⟩
+    simp [Graph.keys, e] at this
+  obtain ⟨p, hp⟩ := (heaviestPath_terminates g h.wf h.acyclic fuel hf).2.2 hne h.pos
+  obtain ⟨hpw, s, t, rfl, _, hs⟩ := heaviestPath_is_walk g h.wf fuel p hp
+  have hs0 := h.source_eq s hs
+  subst hs0
+  obtain ⟨m, hm, rfl⟩ := h.walk_prefix t 0 (by omega) hpw
+  have hopt := heaviestPath_optimal g h.wf h.pos fuel _ hp (kw k d 0) ((List.range' 1 N).map (kw k d)) h.source0
+    (by have := hwalk; rw [hkw, List.range'_succ] at this; exact this)
+  rw [hp, hkw, List.range'_succ, List.map_cons]
+  congr 2
+  -- `m = N`: otherwise the k-mer at position `m + 1` would add a positive weight
+  have hmN : m = N := by
+    apply Classical.byContradiction
+    intro hne'
+    obtain ⟨r, hr⟩ : ∃ r, N = m + (r + 1) := ⟨N - m - 1, by omega⟩
+    have hsplit : List.range' 1 N = List.range' 1 m ++ (1 + m) :: List.range' (1 + m + 1) r := by
+      rw [hr, ← List.range'_append (s := 1) (m := m) (n := r + 1) (step := 1), List.range'_succ]
+      simp
+    rw [pathWeight_cons, pathWeight_cons, hsplit, List.map_append, pathWeight_append, List.map_cons,
+      pathWeight_cons] at hopt
+    have := h.pos (kw k d (1 + m)) ((h.mem_keys _).mpr ⟨1 + m, by omega, rfl⟩)
+    simp only [Nat.zero_add] at hopt
+    omega
+  rw [hmN]
+
+/-- `LongestConsensus` on the graph of a single read gives back the read -/
+theorem consensus (h : OneRead g k d) (fuel : Nat) (hf : g.hpBound ≤ fuel) :
+    g.longestConsensus fuel = .seq (d.map decode) := by
+  have hk := h.k2
+  have hl := h.len
+  have hne : g.nodes.isEmpty = false := by
+    have := (h.mem_keys (kw k d 0)).mpr ⟨0, by omega, rfl⟩
+    cases hn : g.nodes with
+    | nil => simp [Graph.keys, hn] at this
+    | cons a t => rfl
+  unfold Graph.longestConsensus
+  rw [hne, h.heaviest fuel hf]
+  simp only [Bool.false_eq_true, if_false]
+  have := decodePath_kwords g d h.dig (by rw [h.gk]; omega) (by rw [h.gk]; exact hl)
+  rw [h.gk] at this
+  rw [this]
+  have : (d.map decode).isEmpty = false := by
+    cases d with
+    | nil => simp at hl; omega
+    | cons a t => rfl
+  rw [this]; rfl
+
+end OneRead
+
+/-- a single read of plain bases (a, c, g, t, u), at least `k` of them, `2 ≤ k ≤ 32`, count at least 1, in
+which no window of `k-1` bases occurs twice: the consensus is the read (u read as t) -/
+theorem single_read_consensus (k : Nat) (hk : 2 ≤ k) (h32 : k ≤ 32) (s : Bytes) (w : Nat) (hw : 1 ≤ w)
+    (hp : ∀ b ∈ s, (plain b).isSome) (hl : k ≤ s.length) (hn : (windowsAll (k - 1) (s.map digit)).Nodup)
+    (fuel : Nat) (hf : ((makeGraph k).push s w).hpBound ≤ fuel) :
+    ((makeGraph k).push s w).longestConsensus fuel = .seq ((s.map digit).map decode) :=
+  (oneRead_push k hk h32 s w hw hp hl hn).consensus fuel hf
 
 
 end ObiVerif.DeBruijn
